@@ -10,6 +10,11 @@ package c31
 //   N  any modified / truncated / extended / foreign / rotated-out / cross-version / cross-suite ticket
 //      ⇒ a completed FULL handshake (neither side resumed, same exported keying material) or a
 //      handshake error — never a resumption;
+//   V  (scenario vr) client and server version ranges chosen independently for every connection of a sequence,
+//      listeners with different caps sharing the ticket keys: the session in the client's cache (version v, suite s)
+//      presented when the connection negotiates v and s is still offered and configured ⇒ R at exactly (v, s);
+//      otherwise (another version negotiated, suite gone) ⇒ a CLEAN full handshake at the version the two ranges
+//      determine — never a resumption and never an aborted handshake;
 //   always: a completed handshake has both sides agreeing on DidResume and on the exported keying
 //      material; a server-side resumption implies the presented ticket is byte-identical to an issued
 //      one and the version/suite are the original ones.
@@ -247,6 +252,27 @@ func (v *verdicts) mustNotResume(what string, base, o hsOut) {
 		v.tag("outcome=full-handshake")
 	default:
 		v.tag("outcome=error")
+	}
+}
+
+// mustFull: the ticket is authentic but belongs to a session that cannot be resumed on this connection (another
+// version negotiated / suite no longer negotiable): the server has to fall back to a full handshake that COMPLETES
+// at the expected version — a resumption (which the client must abort) or any other failure violates the property.
+func (v *verdicts) mustFull(what string, base, o hsOut, wantVers uint16) {
+	if o.timedOut {
+		v.fail("rig: %s: handshake timed out (40 s): %v", what, o)
+		return
+	}
+	v.consistent(what, base, o, true)
+	switch {
+	case o.sOK && o.sResumed || o.cErr == nil && o.cResumed:
+		v.fail("%s: resumed although the session cannot be resumed on this connection: %v", what, o)
+	case !o.ok:
+		v.fail("%s: the handshake must fall back to a full handshake, it was aborted instead: %v", what, o)
+	case o.vers != wantVers:
+		v.fail("%s: full handshake negotiated %04x, the version ranges determine %04x: %v", what, o.vers, wantVers, o)
+	default:
+		v.tag("outcome=full-handshake")
 	}
 }
 
@@ -533,6 +559,8 @@ func execReal(line string) zv.Out {
 			v.mustResume("second use of the same ticket", base, e.handshake())
 		}
 		v.tag("cfg=" + args[0])
+	case "vr":
+		execVR(r, v, vers, suite, args)
 	default:
 		v.fail("harness: unknown scenario %s", scen)
 	}
@@ -544,6 +572,218 @@ func execReal(line string) zv.Out {
 		out.Viol = strings.Join(v.viol, " | ")
 	}
 	return out
+}
+
+// ---------- scenario vr: independent client / server version ranges, listeners sharing the ticket keys ----------
+//
+//   c31 real <seed> <vers> <suite> vr <explicit|auto> <pref> <step> <step> …
+//   step = <cmin>-<cmax>/<smin>-<smax>/<listener>/<client suites>/<server suites>     (hex, suites joined by ".")
+// <vers> = the version step 0 must negotiate, <suite> fixes the certificate type (all suites of a line share it),
+// pref = s: PreferServerCipherSuites.  Listener: same = the issuing Config itself (caps changed), clone = a Clone()
+// of it, newcfg = a fresh Config given the same explicit ticket keys (second server of a ticket-key group), gcfc = the
+// issuing Config's clone returns the capped Config from GetConfigForClient (keys come from the outer Config).
+// Every step is one connection of the SAME client (cache kept, client version range / suites per step).
+
+type vrStep struct {
+	cmin, cmax, smin, smax uint16
+	listener               string
+	cs, ss                 []uint16
+}
+
+func hex16(s string) uint16 { n, _ := strconv.ParseUint(s, 16, 16); return uint16(n) }
+
+func parseVRStep(a string) (st vrStep, ok bool) {
+	p := strings.Split(a, "/")
+	if len(p) != 5 {
+		return st, false
+	}
+	c, s := strings.Split(p[0], "-"), strings.Split(p[1], "-")
+	if len(c) != 2 || len(s) != 2 {
+		return st, false
+	}
+	st.cmin, st.cmax, st.smin, st.smax = hex16(c[0]), hex16(c[1]), hex16(s[0]), hex16(s[1])
+	st.listener = p[2]
+	for _, x := range strings.Split(p[3], ".") {
+		st.cs = append(st.cs, hex16(x))
+	}
+	for _, x := range strings.Split(p[4], ".") {
+		st.ss = append(st.ss, hex16(x))
+	}
+	return st, true
+}
+
+func (s vrStep) String() string {
+	h := func(l []uint16) string {
+		var o []string
+		for _, x := range l {
+			o = append(o, fmt.Sprintf("%04x", x))
+		}
+		return strings.Join(o, ".")
+	}
+	return fmt.Sprintf("%04x-%04x/%04x-%04x/%s/%s/%s", s.cmin, s.cmax, s.smin, s.smax, s.listener, h(s.cs), h(s.ss))
+}
+
+func min16(a, b uint16) uint16 {
+	if a < b {
+		return a
+	}
+	return b
+}
+
+func versName(v uint16) string {
+	switch v {
+	case 0x0301:
+		return "1.0"
+	case 0x0302:
+		return "1.1"
+	case 0x0303:
+		return "1.2"
+	case 0x0304:
+		return "1.3"
+	}
+	return fmt.Sprintf("%04x", v)
+}
+
+func execVR(r *zv.Rng, v *verdicts, vers, suite uint16, args []string) {
+	if len(args) < 3 {
+		v.fail("harness: vr needs <keys> <pref> <step>…")
+		return
+	}
+	explicit := args[0] == "explicit"
+	e := newEnv(r, vers, suite, explicit)
+	e.scfg.PreferServerCipherSuites = args[1] == "s"
+	v.tag("keys=" + args[0])
+	orig := e.scfg
+	if !explicit {
+		// auto-rotated keys live in the Config that generated them and are copied by Clone(): let the issuing
+		// Config generate its key first (as a server that has already served a connection), so that its clones
+		// and the GetConfigForClient wrapper belong to the same ticket-key group
+		tls.ZVC31Keys(orig, nil)
+	}
+	var have bool         // a session is in the client's cache
+	var cv, csuite uint16 // its version and suite
+	var base hsOut        // the handshake that created it
+	for i, a := range args[2:] {
+		st, ok := parseVRStep(a)
+		if !ok {
+			v.fail("harness: bad vr step %q", a)
+			return
+		}
+		// --- client of this connection
+		e.ccfg.MinVersion, e.ccfg.MaxVersion = st.cmin, st.cmax
+		e.ccfg.CipherSuites = st.cs
+		// --- listener of this connection
+		apply := func(c *tls.Config) *tls.Config {
+			c.MinVersion, c.MaxVersion = st.smin, st.smax
+			c.CipherSuites = st.ss
+			return c
+		}
+		switch st.listener {
+		case "same":
+			e.scfg = apply(orig)
+		case "clone":
+			e.scfg = apply(orig.Clone())
+		case "newcfg":
+			if !explicit {
+				v.fail("harness: listener newcfg needs explicit keys")
+				return
+			}
+			c := &tls.Config{Certificates: orig.Certificates, Time: orig.Time, PreferServerCipherSuites: orig.PreferServerCipherSuites}
+			c.SetSessionTicketKeys([][32]byte{e.keys[0]})
+			e.scfg = apply(c)
+		case "gcfc":
+			inner := apply(&tls.Config{Certificates: orig.Certificates, Time: orig.Time, PreferServerCipherSuites: orig.PreferServerCipherSuites})
+			outer := orig.Clone()
+			outer.GetConfigForClient = func(*tls.ClientHelloInfo) (*tls.Config, error) { return inner, nil }
+			e.scfg = outer
+		default:
+			v.fail("harness: unknown listener %s", st.listener)
+			return
+		}
+		v.tag("listener=" + st.listener)
+		want := min16(st.cmax, st.smax) // the version the two ranges determine (the generator keeps them overlapping)
+		offered := min16(st.cmax, 0x0303)
+		switch {
+		case want < offered:
+			v.tag("negotiated<offered")
+		default:
+			v.tag("negotiated=offered")
+		}
+		_, puts0 := e.cache.snapshot()
+		o := e.handshake()
+		what := fmt.Sprintf("connection %d (client %s..%s, listener %s %s..%s ⇒ TLS %s)", i, versName(st.cmin), versName(st.cmax), st.listener,
+			versName(st.smin), versName(st.smax), versName(want))
+		switch {
+		case !have:
+			// nothing to present: the issuing handshake
+			if !o.ok || o.cResumed || o.sResumed {
+				v.fail("rig: %s: full handshake without a session failed: %v", what, o)
+				return
+			}
+			if o.vers != want || i == 0 && o.vers != vers {
+				v.fail("rig: %s: negotiated %04x", what, o.vers)
+				return
+			}
+			v.tag("step=issue")
+		case cv == want && hasSuite(st.cs, csuite, want) && hasSuite(st.ss, csuite, want):
+			v.tag("step=resumable")
+			v.tag("resumable-at=" + versName(want))
+			if want < offered {
+				v.tag("resumable-below-client-max")
+			}
+			v.mustResume(fmt.Sprintf("%s presenting the current-key ticket of a TLS %s / %04x session", what, versName(cv), csuite), base, o)
+			if len(v.viol) > 0 {
+				return
+			}
+		default:
+			kind := "other-version"
+			if cv == want {
+				kind = "suite-not-negotiable"
+			}
+			v.tag("step=not-resumable:" + kind)
+			if cv > want {
+				v.tag("ticket-version>negotiated")
+			} else if cv < want {
+				v.tag("ticket-version<negotiated")
+			}
+			v.mustFull(fmt.Sprintf("%s presenting the ticket of a TLS %s / %04x session (%s)", what, versName(cv), csuite, kind), base, o, want)
+			if len(v.viol) > 0 {
+				return
+			}
+		}
+		// what the client holds now
+		if cst, puts1 := e.cache.snapshot(); cst != nil && puts1 != puts0 {
+			nv, ns, _ := tls.ZVSessionInfo(cst)
+			if nv != o.vers || !sameSuite(nv, ns, o.suite) {
+				v.fail("%s: the client stored a session %04x/%04x after a %04x/%04x handshake", what, nv, ns, o.vers, o.suite)
+				return
+			}
+			if !(o.sResumed && have) {
+				base = o
+			} else if nv != cv || ns != csuite {
+				v.fail("%s: the ticket issued on resumption is for %04x/%04x, the session is %04x/%04x", what, nv, ns, cv, csuite)
+				return
+			}
+			have, cv, csuite = true, nv, ns
+		} else if !have {
+			v.fail("rig: %s: no session ticket was stored", what)
+			return
+		}
+	}
+}
+
+// hasSuite: is the session's suite among l for a handshake at version vers (TLS 1.3 suites are not configurable:
+// both sides use the default list, the lines carry only TLS ≤ 1.2 ids)
+func hasSuite(l []uint16, s, vers uint16) bool {
+	if vers == tls.VersionTLS13 {
+		return true
+	}
+	for _, x := range l {
+		if x == s {
+			return true
+		}
+	}
+	return false
 }
 
 type realCfg struct {
@@ -558,11 +798,169 @@ var realCfgs = []realCfg{
 	{tls.VersionTLS11, 0xc013}, {tls.VersionTLS10, 0x002f},
 }
 
+// suite pools of scenario vr, by certificate type: legal in every protocol version / TLS 1.2 only
+var vrAny = map[string][]uint16{"rsa": {0xc013, 0xc014, 0x002f, 0x0035}, "ecdsa": {0xc009, 0xc00a}}
+var vr12 = map[string][]uint16{"rsa": {0xc02f, 0xc030, 0xcca8, 0x009c, 0xc027}, "ecdsa": {0xc02b, 0xc02c, 0xcca9}}
+
+var vrVersions = []uint16{0x0301, 0x0302, 0x0303, 0x0304}
+var vrListeners = []string{"same", "clone", "newcfg", "gcfc"}
+
+type vrGen struct {
+	g  *zv.Gen
+	kt string
+}
+
+// suites: a preference list out of the pools that always contains `must` (so that every pair of lists of a line has
+// a suite in common that is legal at every version); a version-independent suite comes first with probability
+// anyFirst % (then a session negotiated at TLS 1.2 has a suite that is also legal below — the version test alone
+// stands between its ticket and a resumption at a lower version).
+func (x vrGen) suites(must uint16, anyFirst int) []uint16 {
+	r := x.g.Rng
+	var l []uint16
+	for _, s := range vrAny[x.kt] {
+		if s != must && r.Chance(40) {
+			l = append(l, s)
+		}
+	}
+	pos := r.Intn(len(l) + 1)
+	l = append(l[:pos:pos], append([]uint16{must}, l[pos:]...)...)
+	var m []uint16
+	for _, s := range vr12[x.kt] {
+		if r.Chance(45) {
+			m = append(m, s)
+		}
+	}
+	if r.Chance(anyFirst) {
+		return append(l, m...)
+	}
+	return append(m, l...)
+}
+
+// mins: client and server minimums ≤ the version that will be negotiated
+func (x vrGen) mins(cmax, smax uint16) (cmin, smin uint16) {
+	r := x.g.Rng
+	want := min16(cmax, smax)
+	pick := func() uint16 {
+		if r.Chance(50) {
+			return 0x0301
+		}
+		return 0x0301 + uint16(r.Intn(int(want-0x0301)+1))
+	}
+	return pick(), pick()
+}
+
+func (x vrGen) step(cmax, smax uint16, listener string, must uint16, anyFirst int) vrStep {
+	cmin, smin := x.mins(cmax, smax)
+	return vrStep{cmin: cmin, cmax: cmax, smin: smin, smax: smax, listener: listener, cs: x.suites(must, anyFirst), ss: x.suites(must, anyFirst)}
+}
+
+func (x vrGen) emit(keys string, steps []vrStep) {
+	r := x.g.Rng
+	var ss []string
+	for _, s := range steps {
+		ss = append(ss, s.String())
+	}
+	pref := "c"
+	if r.Chance(30) {
+		pref = "s"
+	}
+	suite := vrAny[x.kt][0]
+	x.g.Emitf("c31 real %d %d %d vr %s %s %s", r.U64()>>1, min16(steps[0].cmax, steps[0].smax), suite, keys, pref, strings.Join(ss, " "))
+}
+
+// genVR: client and server version ranges chosen independently for the issuing and for the resuming connections.
+// A line is the sequence  issue on A · again on A (must resume) · connection to a listener B sharing the keys with
+// other caps / other client range (resumes iff it negotiates the session's version) · back on A · random further steps.
+func genVR(g *zv.Gen) {
+	r := g.Rng
+	listenerFor := func(keys string) string {
+		l := vrListeners[r.Intn(len(vrListeners))]
+		for keys == "auto" && l == "newcfg" {
+			l = vrListeners[r.Intn(len(vrListeners))]
+		}
+		return l
+	}
+	line := func(cM1, sM1, cM2, sM2 uint16, lB string, keys string, anyFirst int) {
+		x := vrGen{g: g, kt: []string{"rsa", "ecdsa"}[r.Intn(2)]}
+		must := vrAny[x.kt][r.Intn(len(vrAny[x.kt]))]
+		lA := "same"
+		if r.Chance(30) {
+			lA = listenerFor(keys)
+		}
+		a := x.step(cM1, sM1, lA, must, anyFirst)
+		a2 := a
+		if r.Chance(50) { // the same negotiated version reached by other ranges (client max moved above the server cap, …)
+			want := min16(cM1, sM1)
+			c2, s2 := want+uint16(r.Intn(int(0x0304-want)+1)), want
+			if r.Bool() {
+				c2, s2 = s2, c2
+			}
+			a2.cmax, a2.smax = c2, s2
+			a2.cmin, a2.smin = x.mins(c2, s2)
+		}
+		b := x.step(cM2, sM2, lB, must, anyFirst)
+		if r.Chance(60) { // keep the suite lists: only the versions differ
+			b.cs, b.ss = a.cs, a.ss
+		}
+		steps := []vrStep{a, a2, b, a}
+		for n := r.Intn(3); n > 0; n-- {
+			c := x.step(vrVersions[r.Intn(4)], vrVersions[r.Intn(4)], listenerFor(keys), must, anyFirst)
+			if r.Chance(50) {
+				c.cs, c.ss = a.cs, a.ss
+			}
+			steps = append(steps, c)
+		}
+		x.emit(keys, steps)
+	}
+	keysOf := func() string {
+		if r.Chance(25) {
+			return "auto"
+		}
+		return "explicit"
+	}
+	// grid over the four maxima (issuing client / server, resuming client / server)
+	reps := g.N(1, 6)
+	for rep := 0; rep < reps; rep++ {
+		for _, cM1 := range vrVersions {
+			for _, sM1 := range vrVersions {
+				for _, cM2 := range vrVersions {
+					for _, sM2 := range vrVersions {
+						if g.Quick && cM2 != cM1 && sM2 != sM1 && r.Chance(50) {
+							continue
+						}
+						keys := keysOf()
+						line(cM1, sM1, cM2, sM2, listenerFor(keys), keys, 60)
+					}
+				}
+			}
+		}
+	}
+	// the two situations in which offered and negotiated version differ, for every listener kind:
+	// (1) sessions negotiated below the client's maximum; (2) a ticket presented to a listener capped below its version
+	for _, l := range vrListeners {
+		for _, keys := range []string{"explicit", "auto"} {
+			if keys == "auto" && (l == "newcfg" || g.Quick) {
+				continue
+			}
+			for _, cM := range vrVersions[1:] {
+				for _, sM := range vrVersions {
+					if sM < cM {
+						line(cM, sM, cM, sM, l, keys, 50)  // (1) stays below the client's maximum
+						line(cM, cM, cM, sM, l, keys, 100) // (2) issued at the client's maximum, then a lower cap
+						line(cM, sM, cM, cM, l, keys, 100) // … and the reverse: cap lifted
+					}
+				}
+			}
+		}
+	}
+}
+
 func genReal(g *zv.Gen) {
 	r := g.Rng
 	emit := func(c realCfg, scen string, args ...string) {
 		g.Emitf("c31 real %d %d %d %s %s", r.U64()>>1, c.vers, c.suite, scen, strings.Join(args, " "))
 	}
+	genVR(g)
 	const chunk = 24
 	for ci, c := range realCfgs {
 		main := ci < 4 || c.vers == tls.VersionTLS13 // quick: every byte position for the main configurations
